@@ -6,8 +6,8 @@ from symx import core as sx
 from symx.core import var, assume, eq, le, sa, band, bor, alleq, close
 
 META = dict(
-    explanation='GammaSurface.a12_to_pos/pos_to_a12/pos_to_xy/xy_to_pos/a12_to_xy/xy_to_a12 are executed on concrete instances (rectangular and oblique shift vectors, cubic and triclinic cells, default and explicit a1vect/a2vect/xvect) with symbolic query coordinates for one and many positions; E_gsf is cut before its interpolation (AST of the current source) and the fractional coordinates that reach the interpolation are compared, for a symbolic shift given as fractions, Cartesian position or plotting coordinates, with stored or alternate in-plane vectors, against the fractions of the stored vectors that describe that shift; SDVPN.disldensity/elastic_energy/stress_energy/surface_energy/nonlocal_energy/longrange_energy/total_energy are executed with a symbolic disregistry profile, symbolic K tensor, stress, alpha, beta on a concrete uniform grid (state constructed directly) and compared with independent double-loop evaluations of the documented formulas.',
-    functions=['atomman/defect/GammaSurface.py:a12_to_pos,pos_to_a12,pos_to_xy,xy_to_pos,a12_to_xy,xy_to_a12,E_gsf (up to the interpolation)', 'atomman/defect/SDVPN.py:disldensity,elastic_energy,stress_energy,surface_energy,nonlocal_energy,longrange_energy,total_energy'],
+    explanation='GammaSurface.a12_to_pos/pos_to_a12/pos_to_xy/xy_to_pos/a12_to_xy/xy_to_a12 are executed on concrete instances (rectangular and oblique shift vectors, cubic and triclinic cells, default and explicit a1vect/a2vect/xvect) with symbolic query coordinates for one and many positions; E_gsf is cut before its interpolation (AST of the current source) and the fractional coordinates that reach the interpolation are compared, for a symbolic shift given as fractions, Cartesian position or plotting coordinates, with stored or alternate in-plane vectors, against the fractions of the stored vectors that describe that shift; SDVPN.disldensity/elastic_energy/stress_energy/surface_energy/nonlocal_energy/longrange_energy/total_energy are executed with a symbolic disregistry profile, symbolic K tensor, stress, alpha, beta on a concrete uniform grid (state constructed directly) and compared with independent double-loop evaluations of the documented formulas (total_energy also on a passed profile that differs from the stored one); pn_arctan_disregistry / pn_arctan_disldensity with symbolic centre, half-width and Burgers vector (arctan opaque): documented profile, normalisation 0..b, density = derivative of the normalised disregistry.',
+    functions=['atomman/defect/GammaSurface.py:a12_to_pos,pos_to_a12,pos_to_xy,xy_to_pos,a12_to_xy,xy_to_a12,E_gsf (up to the interpolation)', 'atomman/defect/SDVPN.py:disldensity,elastic_energy,stress_energy,surface_energy,nonlocal_energy,longrange_energy,total_energy', 'atomman/defect/pn_arctan_disregistry.py', 'atomman/defect/pn_arctan_disldensity.py'],
     bounds=dict(quick='3 gamma-surface instances x all real query coordinates, 1, 2 and 4 positions; PN: grid of 5 points (spacing 0.4), disregistry 5x3 symbolic, symmetric K (6 symbolic entries), tau 3x3, two alpha, beta 3x3; finite-difference options on/off',
                 thorough='grid of 7 points'),
     outside=['interpolation of the gamma surface (scipy RBF): reproduces-input, periodicity, model round trip', 'SDVPN.solve (scipy.optimize.minimize): never raises the energy, fixed ends', 'half-width clause', 'IEEE-754 rounding'],
@@ -122,6 +122,35 @@ def h_egsf(kind, how, alt):
     return fn
 
 
+def h_arctan(center_kind):
+    """pn_arctan_disregistry / pn_arctan_disldensity with symbolic centre, half-width and Burgers vector on a concrete grid
+    (arctan opaque): the disregistry is the documented arctangent profile, normalised from 0 to b; the density is its
+    derivative with the same normalisation (so that it integrates to one Burgers vector over the range)"""
+    def fn():
+        from atomman.defect import pn_arctan_disregistry, pn_arctan_disldensity
+        x = np.linspace(-4.0, 6.0, 6)
+        c = var('center', 0.5, 2.0) if center_kind == 'symbolic' else 0.0      # away from 0: a model with centre 0 would hide a centre-handling error in the replay
+        w = var('halfwidth', 0.5, 3.0)
+        b = [var('bx', 1.0, 4.0), 0.0, var('bz', -2.0, 2.0)]
+        S = 100.0
+        ob = []
+        at = [sx.npshim.arctan((float(xi) - c) / w) if sx.symbolic_mode() else math.atan((float(xi) - c) / w) for xi in x]
+        xr, d0 = pn_arctan_disregistry(x=x, burgers=sa(b), center=c, halfwidth=w, normalize=False)
+        ob.append(('disregistry (normalize=False) == arctan((x-c)/w) b/pi + b/2', band(np.shape(d0) == (len(x), 3), *[close(d0[i][k] * math.pi, at[i] * b[k] + b[k] * (math.pi / 2), 1e-9, S) for i in range(len(x)) for k in range(3)])))
+        xr, d1 = pn_arctan_disregistry(x=x, burgers=sa(b), center=c, halfwidth=w, normalize=True)
+        span = at[-1] - at[0]
+        ob.append(('disregistry (normalize=True) runs from 0 to exactly b', band(*[close(d1[0][k], 0, 1e-9, S) for k in range(3)], *[close(d1[-1][k], b[k], 1e-9, S) for k in range(3)])))
+        ob.append(('normalised disregistry == (arctan_i - arctan_0)/(arctan_N - arctan_0) b', band(*[close(d1[i][k] * span, (at[i] - at[0]) * b[k], 1e-9, S) for i in range(len(x)) for k in range(3)])))
+        xr, r0 = pn_arctan_disldensity(x=x, burgers=sa(b), center=c, halfwidth=w, normalize=False)
+        ob.append(('density (normalize=False) == w/((x-c)^2+w^2) b/pi', band(*[close(r0[i][k] * math.pi * ((float(x[i]) - c) ** 2 + w * w), w * b[k], 1e-9, S) for i in range(len(x)) for k in range(3)])))
+        xr, r1 = pn_arctan_disldensity(x=x, burgers=sa(b), center=c, halfwidth=w, normalize=True)
+        # derivative of the normalised disregistry: w/((x-c)^2+w^2) b / (arctan_N - arctan_0)
+        ob.append(('density (normalize=True) is the derivative of the normalised 0..b disregistry (integrates to one Burgers vector over the range)',
+                   band(*[close(r1[i][k] * span * ((float(x[i]) - c) ** 2 + w * w), w * b[k], 1e-9, S) for i in range(len(x)) for k in range(3)])))
+        return ob
+    return fn
+
+
 def mk_pn(n, cdiff, full, symbolicK=True):
     from atomman.defect import SDVPN
     pn = object.__new__(SDVPN)
@@ -215,6 +244,11 @@ def h_pn(n, cdiff, full):
         if not stress_ok: return ob
         tot = pn.total_energy()
         ob.append(('total_energy == misfit + elastic + longrange + stress + nonlocal + surface', close(tot, mis + pn.elastic_energy() + pn.longrange_energy() + pn.stress_energy() + pn.nonlocal_energy() + pn.surface_energy(), 1e-9, S)))
+        # ... also for a profile that is passed in and differs from the stored one (every term evaluated on the PASSED profile)
+        D2 = [[D[i][c] * 0.5 + (0.1 * (i + 1) if c == 0 else 0.0) for c in range(3)] for i in range(n)]
+        d2 = sa(D2)
+        tot2 = pn.total_energy(x, d2)
+        ob.append(('total_energy(x, profile) == sum of the terms evaluated on that profile, not on the stored one', close(tot2, mis + pn.elastic_energy(x, d2) + pn.longrange_energy() + pn.stress_energy(x, d2) + pn.nonlocal_energy(x, d2) + pn.surface_energy(x, d2), 1e-9, S)))
         return ob
     return fn
 
@@ -231,6 +265,8 @@ def cases(tier, seed=0):
         for how, alt in (('pos', False), ('pos', True), ('xy', False), ('xy', True), ('a12', True)):
             cs.append(Case(f'egsf_{kind}_{how}{"_alt" if alt else ""}', h_egsf(kind, how, alt), bind=BIND, budget_s=120, timeout_ms=15000,
                            descr=f'E_gsf dispatch ({kind}): shift given as {how}{" with alternate vectors" if alt else ""} reaches the interpolation at the right fractions'))
+    for ck in ('zero', 'symbolic'):
+        cs.append(Case(f'pn_arctan_{ck}_center', h_arctan(ck), bind=BIND + ['atomman.defect.pn_arctan_disregistry', 'atomman.defect.pn_arctan_disldensity'], budget_s=170, timeout_ms=30000, descr=f'arctangent disregistry / density profiles, centre {ck}, symbolic half-width and Burgers vector'))
     n = 5 if tier == 'quick' else 7
     for cdiff in (False, True):
         for full in (True, False):
